@@ -214,6 +214,12 @@ def main(tier='quick', seed=0):
         if r.get('error'):
             errors.append(f"{r['error']} (job {r['job']})")
         paths += r.get('paths', 0)
+    # the rule functions call Category / Feature methods through the contracts of depccg/cat.py: re-discharged here as well
+    from props import c13
+    crecs, cerrs, clib, cinl, cpaths, cimpls, _w = c13.deductive_records(PROP)
+    records.extend(crecs)
+    errors.extend(cerrs)
+    paths += cpaths
     b, err = bounded(tier, seed)
     binfo = None
     if err:
